@@ -119,9 +119,10 @@ class Ix:
 def index_forms(mov=False):
     """mov: the operand class oprx0_xysp of MOVB/MOVW/TBL/ETBL (no extension bytes, 5-bit range enforced)"""
     R = lambda: Enum(IDX)
+    # (mov: far=False - offsets like 65535 alias negative offsets modulo 64K and are not expected to be rejected)
     out = [
         Ix(",R", ",%0", lambda: [R()], lambda v: b1(v[0] << 6), True),
-        Ix("n5,R", "%0,%1", (lambda: [Int(-16, 15), R()]) if mov else (lambda: [Int(-16, 15, rej_lo=False, rej_hi=False), R()]),
+        Ix("n5,R", "%0,%1", (lambda: [Int(-16, 15, far=False), R()]) if mov else (lambda: [Int(-16, 15, rej_lo=False, rej_hi=False), R()]),
            lambda v: b1(v[1] << 6 | (v[0] & 0x1f)), True),
         Ix("n,+R", "%0,+%1", lambda: [STEP(), R()], lambda v: b1(v[1] << 6 | 0x20 | (v[0] - 1)), True),
         Ix("n,-R", "%0,-%1", lambda: [STEP(), R()], lambda v: b1(v[1] << 6 | 0x20 | (16 - v[0])), True),
